@@ -171,12 +171,13 @@ CHECKS["C17"] = dict(
          "whether they raise; payloads are str; coverage theorems assume persistence on or an empty tree at start.",
     design_ref="DESIGN.md §6 C17")
 CHECKS["C19"] = dict(
-    technique="Lean 4 proof: segmentation independence by induction over chunk lists for an arbitrary per-line decoder; pump equivalence: negation proved from a witness (known finding D12) plus partial theorems (state equality, output permutation, equality when drained/quiet); real protocol classes cut at every position, scripted pump schedules",
+    technique="Lean 4 proof: segmentation independence by induction over chunk lists for an arbitrary per-line decoder; pump equivalence: negation proved from a witness (known finding D12) plus partial theorems (state equality, output permutation, equality when drained/quiet); connection events (lost / made on the one protocol object every connection shares) and the TCP reader loop (idle iterations, empty reads) by induction over event / read lists; real protocol classes cut at every position and across reconnects made by the real connect functions, recorded recv results of the real TCPTransport.run, scripted pump schedules",
     text="segmentation, cut_anywhere, delivered_exact, tcp_chunking, behaviour_independent_of_segmentation hold for every byte "
-         "stream and chunking. flavours_agree is FALSE on the current code: flavours_counterexample; flavours_partial_state / "
+         "stream and chunking; reconnect_is_concatenation, events_any_two, events_deliver_complete_lines, reconnect_drop_policy for every "
+         "sequence of data_received / connection_lost / connection_made calls; tcp_reader_loop for every sequence of recv results. flavours_agree is FALSE on the current code: flavours_counterexample; flavours_partial_state / "
          "_output / _quiet / _drained are what holds for every schedule. The check prints KNOWN-FINDING for the D12 shape and "
          "reports any other flavour difference as a violation.",
-    note="Trusted: Lean kernel; Model/Framing.lean, Model/Pump.lean; the UTF-8 decoder is a parameter; the split of handler "
+    note="Trusted: Lean kernel; Model/Framing.lean, Model/Pump.lean; the UTF-8 decoder is a parameter; either tail policy at a connection loss is accepted (both proved to deliver complete lines only); the split of handler "
          "output into returned reply vs queued jobs is correspondence-checked; real thread timing not modelled (scripted schedules).",
     design_ref="DESIGN.md §6 C19")
 
